@@ -20,7 +20,7 @@ ALL_CMDS = ["Start", "Step", "RunUpTo", "Stop", "Pause", "EndReplication", "Clea
 
 def consts(**kw):
     c = dict(MaxId=4, EndT=3, WarmT=1, Prios=[1, 5], RelDelays=[-1, 0, 2], AbsTimes=[], BadKinds=["nan_abs"],
-             MaxOps=1, Strategy="pause", Bounds=[1, 3], MaxInits=1, AllowFaults=False, StratOps=[], EndRepOps=False, MaxCmds=3, Cmds=["Start"])
+             MaxOps=1, Strategy="pause", Bounds=[1, 3], MaxInits=1, AllowFaults=False, StratOps=[], HStopOps=False, EndRepOps=False, MaxCmds=3, Cmds=["Start"])
     c.update(kw)
     return c
 
@@ -217,12 +217,14 @@ def replay(ctx: Ctx, beh, conc, c, origin, model_factory=None, observer=None, se
 
 # ----------------------------------------------------------------------------- C -> S
 
-def random_program_gen(rng, end_t, maxev, p_fault, prios=(1, 5, 10), bad=("nan_abs", "nan_rel", "str_abs", "neg_tiny", "reinit", "hstart", "hrun", "hstep"),
+def random_program_gen(rng, end_t, maxev, p_fault, prios=(1, 5, 10), bad=("nan_abs", "nan_rel", "str_abs", "neg_tiny", "reinit", "hstart", "hrun", "hstep"), p_hstop=0.04,
                        p_cancel=0.12, p_strat=0.0, p_endrep=0.0):
     def gen(rank, ctl):
         h = gen0(rank, ctl)
         if p_endrep and rng.random() < p_endrep and not h["raise"] and ctl.sim.run_state.name == "STARTED" and ctl.in_run_mode:
             h["ops"].append({"k": "endrep", "a": 0, "p": 0})
+        elif p_hstop and rng.random() < p_hstop:
+            h["ops"].insert(rng.randrange(0, len(h["ops"]) + 1), {"k": "hstop", "a": 0, "p": 0})
         return h
 
     def gen0(rank, ctl):
@@ -299,7 +301,7 @@ def random_run(ctx: Ctx, rng, conc, end_t, warm_t, strategy, *, cmds, p_fault=0.
 
 def trace_cfg(end_t, warm_t, strategy, print_stats=False):
     c = dict(PrintStats=print_stats, MaxId=100000, EndT=end_t, WarmT=warm_t, Prios=[], RelDelays=[], AbsTimes=[], BadKinds=[], MaxOps=0,
-             Strategy=strategy, Bounds=[], MaxInits=100000, AllowFaults=True, StratOps=[], EndRepOps=True, MaxCmds=100000, Cmds=ALL_CMDS)
+             Strategy=strategy, Bounds=[], MaxInits=100000, AllowFaults=True, StratOps=[], HStopOps=True, EndRepOps=True, MaxCmds=100000, Cmds=ALL_CMDS)
     lines = ["SPECIFICATION TraceSpec", "CONSTANTS"]
     defs = []
     for k, v in tla_consts(c).items():
